@@ -530,6 +530,27 @@ func (n *VerifNode) StopFull() {
 	n.Close()
 }
 
+// CleanStop ends the node the way Kardiachain.Stop does (consensus, then the chain): the WAL is flushed and
+// stopped, the pool stopped and BlockChain.Stop journals the snapshot and writes the cached recent states to
+// disk. The recording devices stay attached, so these writes are part of the recorded history.
+func (n *VerifNode) CleanStop() {
+	defer func() { recover() }()
+	if n.Full == nil {
+		return
+	}
+	if n.Full.WAL != nil {
+		n.Full.WAL.FlushAndSync()
+		n.Full.WAL.BaseWAL.Stop()
+	}
+	if n.Full.TxPool != nil {
+		n.Full.TxPool.Stop()
+	}
+	if n.Full.BC != nil {
+		n.Full.BC.Stop()
+	}
+	n.Close()
+}
+
 // SyncTxPool makes the pool catch up with the current head (the pool follows head events
 // asynchronously; the harness makes that a synchronous step).
 func (n *VerifNode) SyncTxPool() {
